@@ -38,7 +38,7 @@ struct EllRef {
   q128 k2, kp2, a2, ap2;
   bool ksing, asing;               // k'^2 == 0 ; alpha'^2 == 0
   bool divergent[6];               // complete integral infinite
-  CumQuad<6> A, B;                 // A(theta) = int_0^theta, theta in [0,pi/4];  B(w) = int over co-angle in [pi/4 - w, pi/4], w in [0,pi/4]
+  CumQuad<6> A, B;                 // A(theta) = int_0^theta, theta in [0,pi/4];  B(-co) = int over co-angle in [co, pi/4] (variable t = -co in [-pi/4,0])
                                    // (accumulated towards the pole, so that no large complete integral is ever subtracted)
   QV<6> C;                         // complete integrals (inf where divergent)
   static q128 inf() { return (q128)HUGE_VALQ; }
@@ -68,8 +68,8 @@ struct EllRef {
     divergent[EL_F] = ksing; divergent[EL_E] = false; divergent[EL_D] = ksing; divergent[EL_PI] = ksing || asing;
     divergent[EL_G] = asing; divergent[EL_H] = ksing && asing;
     A.build([this](q128 th, q128* o) { q128 s, c; sincosq(th, &s, &c); integrand(s, c, o); }, 0, M_PIq / 4);
-    auto fb = [this](q128 w, q128* o) { q128 s, c; sincosq(M_PIq / 4 - w, &c, &s); integrand(s, c, o); for (int i = 0; i < 6; ++i) if (divergent[i]) o[i] = 0; };
-    B.build(fb, 0, M_PIq / 4);
+    auto fb = [this](q128 t, q128* o) { q128 s, c; sincosq(-t, &c, &s); integrand(s, c, o); for (int i = 0; i < 6; ++i) if (divergent[i]) o[i] = 0; };
+    B.build(fb, -M_PIq / 4, 0);
     C = A.total() + B.total();
     for (int i = 0; i < 6; ++i) if (divergent[i]) C[i] = inf();
   }
@@ -79,8 +79,8 @@ struct EllRef {
   // phi > pi/4 (it knows it more accurately than a subtraction here would)
   QV<6> upto_lo(q128 phi) { return A(phi); }
   QV<6> upto_hi(q128 co) {
-    if (!(ksing || asing)) return A.total() + B(M_PIq / 4 - co);
-    if (co == 0) return C;
+    if (!(ksing || asing)) return A.total() + B(-co);
+    if (co <= 1e-32Q) return C;
     // singular modulus/parameter: integrate the co-angle form from co to pi/4 in log(co-angle)
     auto f = [this](q128 u, q128* o) { q128 co2 = expq(u), s, c; sincosq(co2, &c, &s); integrand(s, c, o); for (int i = 0; i < 6; ++i) o[i] *= co2; };
     QV<6> t = adapt_integrate<6>(f, logq(co), logq(M_PIq / 4));
@@ -90,7 +90,8 @@ struct EllRef {
   // diverges are returned as +-inf when the range crosses an odd multiple of pi/2
   QV<6> at(q128 phi) {
     q128 n = roundq(phi / M_PIq), r = phi - n * M_PIq, ar = fabsq(r);
-    QV<6> v = ar <= M_PIq / 4 ? upto_lo(ar) : upto_hi(M_PIq / 2 - ar);
+    q128 co_ = M_PIq / 2 - ar; if (co_ < 0) co_ = 0;
+    QV<6> v = ar <= M_PIq / 4 ? upto_lo(ar) : upto_hi(co_);
     QV<6> o;
     for (int i = 0; i < 6; ++i) { q128 x = copysignq(v[i], r); o[i] = n == 0 ? x : 2 * n * C[i] + x; }
     return o;
@@ -125,16 +126,17 @@ struct EllRef {
       }
       sincosq(ph, &s, &c);
     } else {
-      // Newton for B(w)[F] = ax - F(pi/4) on w in [0, pi/4]  (co-angle = pi/4 - w)
-      q128 tgt = ax - FA, FB = B.total()[EL_F], lo = 0, hi = M_PIq / 4, w = tgt * (M_PIq / 4) / FB, co = 0;
+      // Newton for B(-co)[F] = ax - F(pi/4) on the co-angle in [0, pi/4]  (B(-co) decreases with co, slope -1/Delta)
+      q128 tgt = ax - FA, FB = B.total()[EL_F], lo = 0, hi = M_PIq / 4, co = (1 - tgt / FB) * (M_PIq / 4);
+      if (!(co > lo && co < hi)) co = (lo + hi) / 2;
       for (int it = 0;; ++it) {
-        ++niter; if (it > 300) throw std::runtime_error("EllRef::am no convergence (B)");
-        q128 g = B(w)[EL_F] - tgt; sincosq(M_PIq / 4 - w, &c, &s);
-        if (g > 0) hi = w; else lo = w;
-        q128 wn = w - g * delta(s, c);
-        if (!(wn >= lo && wn <= hi)) wn = (lo + hi) / 2;
-        q128 d = wn - w; w = wn; co = M_PIq / 4 - w;
-        if (fabsq(d) <= 1e-29Q * co || g == 0 || (it > 100 && fabsq(d) <= 1e-25Q * co)) break;
+        ++niter; if (it > 400) throw std::runtime_error("EllRef::am no convergence (B)");
+        q128 g = B(-co)[EL_F] - tgt; sincosq(co, &c, &s);
+        if (g > 0) lo = co; else hi = co;             // too much integral -> co must grow
+        q128 cn2 = co + g * delta(s, c);
+        if (!(cn2 >= lo && cn2 <= hi)) cn2 = lo > 0 ? sqrtq(lo * hi) : (lo + hi) / 2;
+        q128 d = cn2 - co; co = cn2;
+        if (fabsq(d) <= 1e-29Q * co || g == 0 || fabsq(d) <= 1e-29Q * delta(s, c) * K || (it > 100 && fabsq(d) <= 1e-25Q * co)) break;
       }
       sincosq(co, &c, &s); ph = M_PIq / 2 - co;
     }
